@@ -1,6 +1,7 @@
 SPECIFICATION TraceSpec
 CONSTANTS
   SplitClose = FALSE
+  SplitRelease = FALSE
   WithForce = TRUE
 CONSTRAINT HighWater
 POSTCONDITION Post
